@@ -142,7 +142,7 @@ func rtTable(rows, cols int) rtCtor {
 			for r := 0; r < rows; r++ {
 				row := []int{}
 				for c := 0; c < cols; c++ {
-					row = append(row, (r+c)%3)
+					row = append(row, (r+c+2)%3)
 				}
 				cfg.Emphases = append(cfg.Emphases, row)
 			}
